@@ -97,6 +97,10 @@ Proof. intros (H & _ & _) F. rewrite H in F. apply Forall_app in F. exact F. Qed
 (* ------------------------------------------------------------------------------------------ *)
 (** * 2. Reader primitives on a slice with end-of-input terminator *)
 
+(* what may follow a value in a JSON text *)
+Definition val_follow (rst : list N) : Prop :=
+  match rst with [] => True | c :: _ => is_digit c = false /\ c <> 46%N /\ c <> 101%N /\ c <> 69%N /\ c <> 43%N /\ c <> 45%N end.
+
 Section Ignore.
 Variable cf0 : cfg.
 Let E : env := mkEnv RSlice TEof cf0.
@@ -1280,4 +1284,177 @@ Proof.
       rewrite <- (cont_outer_skip _ 123 stk w1 _ o p true d Hw1). rewrite Hitem. reflexivity.
 Qed.
 
+Lemma cost_bound :
+  (forall c, wfb c = true -> (cost c + 1 <= 2 * length (render c))%nat) /\
+  (forall es, wfb_elems es = true -> (cost_elems es <= 2 * length (render_elems es))%nat) /\
+  (forall ms, wfb_members ms = true -> (cost_members ms <= 2 * length (render_members ms))%nat).
+Proof.
+  assert (Hscalar : forall c, cost c = 1%nat -> wfb c = true -> (cost c + 1 <= 2 * length (render c))%nat).
+  { intros c Hc Hwf. destruct (render_head c Hwf) as (b & r & Hr & _). rewrite Hr, Hc. cbn [length]. lia. }
+  apply cst_elems_members_ind.
+  - apply Hscalar. reflexivity.
+  - apply Hscalar. reflexivity.
+  - apply Hscalar. reflexivity.
+  - intros n. apply Hscalar. reflexivity.
+  - intros k. apply Hscalar. reflexivity.
+  - intros w es IH Hwf. cbn [wfb] in Hwf. apply andb_prop in Hwf as [_ Hes]. specialize (IH Hes).
+    rewrite render_arr. cbn [cost length]. rewrite app_length. cbn [length].
+    destruct es; [cbn [cost_elems]; lia|lia].
+  - intros w ms IH Hwf. cbn [wfb] in Hwf. apply andb_prop in Hwf as [_ Hms]. specialize (IH Hms).
+    rewrite render_obj. cbn [cost length]. rewrite app_length. cbn [length].
+    destruct ms; [cbn [cost_members]; lia|lia].
+  - intros _. cbn [cost_elems]. lia.
+  - intros w1 c IHc w2 r IHr Hwf. cbn [wfb_elems] in Hwf.
+    apply andb_prop in Hwf as [Hwf Hr]. apply andb_prop in Hwf as [Hwf _]. apply andb_prop in Hwf as [_ Hc].
+    specialize (IHc Hc). specialize (IHr Hr). rewrite render_elems_cons, !app_length. cbn [cost_elems].
+    destruct r; [cbn [cost_elems more_elems length] in *; lia|]. cbn [more_elems length]. lia.
+  - intros _. cbn [cost_members]. lia.
+  - intros w1 k w2 w3 c IHc w4 r IHr Hwf. cbn [wfb_members] in Hwf.
+    apply andb_prop in Hwf as [Hwf Hr]. apply andb_prop in Hwf as [Hwf _]. apply andb_prop in Hwf as [_ Hc].
+    specialize (IHc Hc). specialize (IHr Hr). rewrite render_members_cons, !app_length. cbn [cost_members length].
+    rewrite !app_length.
+    destruct r; [cbn [cost_members more_members length] in *; lia|]. cbn [more_members length]. lia.
+Qed.
+
+(* ------------------------------------------------------------------------------------------ *)
+(** * 8. The theorems (for the fixed environment; restated in closed form after the section) *)
+
+Lemma val_follow_ok (rst : list N) : val_follow rst -> follow_ok rst.
+Proof.
+  unfold val_follow, follow_ok. destruct rst as [|c r]; cbn [hd].
+  - intros _. repeat split; discriminate.
+  - tauto.
+Qed.
+
+Lemma ws_follow (w : list N) : ws_ok w = true -> val_follow w.
+Proof.
+  destruct w as [|a w]; [exact (fun _ => I)|]. unfold ws_ok. cbn [forallb val_follow]. intros H.
+  apply andb_prop in H as [Ha _]. unfold ws_byte in Ha. unfold is_digit. repeat split; lia.
+Qed.
+
+Lemma ignore_value_complete_E (w : list N) (c : cst) (rst : list N) (o : nat) (p : bool) (d : N) :
+  ws_ok w = true -> wfb c = true -> val_follow rst ->
+  exists p', ignore_value E (mkSt (w ++ render c ++ rst) o p d)
+           = Ok (mkSt rst (o + length w + length (render c)) p' d).
+Proof.
+  intros Hw Hc Hf. unfold ignore_value.
+  set (fuel := ignore_fuel _).
+  assert (Hfuel : (cost c <= fuel)%nat).
+  { unfold fuel, ignore_fuel. cbn [rest]. rewrite !app_length. pose proof (proj1 cost_bound c Hc). lia. }
+  replace fuel with (cost c + (fuel - cost c))%nat by lia.
+  destruct (proj1 complete_all c Hc (fuel - cost c)%nat [] w rst o p d Hw (val_follow_ok rst Hf)) as (p' & Heq).
+  exists p'. rewrite Heq. reflexivity.
+Qed.
+
+Lemma ignore_value_sound_E (s0 s1 : st) :
+  Forall lt256 (rest s0) -> ignore_value E s0 = Ok s1 ->
+  exists w c, rest s0 = w ++ render c ++ rest s1 /\ ws_ok w = true /\ wfb c = true
+           /\ off s1 = (off s0 + length w + length (render c))%nat /\ depth s1 = depth s0.
+Proof.
+  intros F H. unfold ignore_value in H.
+  destruct (proj1 (ig_sound (ignore_fuel s0)) [] s0 s1 F H) as (w & c & t & (H1 & H2 & H3) & Hw & Hc & Ht).
+  cbn [Tail] in Ht. subst t. rewrite app_nil_r in H1, H2. exists w, c. rewrite app_length in H2.
+  repeat split; try assumption; [now rewrite <- app_assoc in H1|lia].
+Qed.
+
+Lemma ignored_lang_E (bs : list N) : Forall lt256 bs ->
+  (ignored_from_input E bs = Ok tt
+   <-> exists w1 c w2, bs = w1 ++ render c ++ w2 /\ ws_ok w1 = true /\ ws_ok w2 = true /\ wfb c = true).
+Proof.
+  intros F. unfold ignored_from_input. split.
+  - intros H. apply bind_ok in H as (s1 & Hig & H). apply bind_ok in H as (s2 & Hend & _).
+    apply ignore_value_sound_E in Hig as (w1 & c & Hr & Hw1 & Hc & _); [|exact F]. unfold init_st in Hr. cbn [rest] in Hr.
+    unfold de_end in Hend. apply bind_ok in Hend as ([o s3] & Hpw & Hend). apply pw_inv in Hpw as (w2 & (G1 & _) & Hw2 & Ho).
+    destruct o as [b|]; [dis|]. rewrite Ho, app_nil_r in G1. exists w1, c, w2. rewrite <- G1 in Hw2 |- *. repeat split; assumption.
+  - intros (w1 & c & w2 & -> & Hw1 & Hw2 & Hc).
+    destruct (ignore_value_complete_E w1 c w2 0 false DEPTH0 Hw1 Hc (ws_follow w2 Hw2)) as (p' & Heq).
+    unfold init_st. rewrite Heq. cbn [bind]. unfold de_end. rewrite pw_eof by exact Hw2. reflexivity.
+Qed.
+
+Lemma raw_value_span_E (s0 : st) (a b : nat) (s1 : st) :
+  Forall lt256 (rest s0) -> raw_value E s0 = Ok (a, b, s1) ->
+  exists w c, rest s0 = w ++ render c ++ rest s1 /\ ws_ok w = true /\ wfb c = true
+           /\ a = (off s0 + length w)%nat /\ b = (a + length (render c))%nat /\ off s1 = b.
+Proof.
+  intros F H. unfold raw_value in H.
+  apply bind_ok in H as ([o s0'] & Hpw & H). apply pw_inv in Hpw as (w & Hst & Hw & Ho).
+  apply bind_ok in H as (s1' & Hig & H). injection H as <- <- <-.
+  destruct (steps_lt256 _ _ _ Hst F) as [_ F'].
+  apply ignore_value_sound_E in Hig as (w' & c & Hr & Hw' & Hc & Hoff & _); [|exact F'].
+  assert (w' = []).
+  { destruct w' as [|x w'']; [reflexivity|]. exfalso. unfold ws_ok in Hw'. cbn [forallb] in Hw'.
+    apply andb_prop in Hw' as [Hx _]. rewrite <- is_ws_ws_byte in Hx. cbn [app] in Hr. destruct o as [b0|].
+    - destruct Ho as (r & Hr0 & Hb0). rewrite Hr0 in Hr. injection Hr as -> _. congruence.
+    - rewrite Ho in Hr. discriminate. }
+  subst w'. cbn [app length] in Hr, Hoff. destruct Hst as (G1 & G2 & _).
+  exists w, c. rewrite G1, Hr. repeat split; try assumption; lia.
+Qed.
+
+Lemma raw_value_complete_E (w : list N) (c : cst) (rst : list N) (o : nat) (p : bool) (d : N) :
+  ws_ok w = true -> wfb c = true -> val_follow rst ->
+  exists s1, raw_value E (mkSt (w ++ render c ++ rst) o p d)
+             = Ok ((o + length w)%nat, (o + length w + length (render c))%nat, s1) /\ rest s1 = rst.
+Proof.
+  intros Hw Hc Hf.
+  destruct (render_head c Hc) as (b & rc & Hrc & Hb & _).
+  destruct (ignore_value_complete_E [] c rst (o + length w) true d eq_refl Hc Hf) as (p' & Heq).
+  exists (mkSt rst (o + length w + length (@nil N) + length (render c)) p' d). split; [|reflexivity].
+  unfold raw_value. rewrite Hrc at 1. lnorm. rewrite pw_complete by assumption. cbn [bind].
+  change (b :: rc ++ rst) with ([] ++ (b :: rc) ++ rst). rewrite <- Hrc.
+  rewrite Heq. cbn [bind off length]. rewrite Nat.add_0_r. reflexivity.
+Qed.
+
 End Ignore.
+
+Theorem ignore_value_complete : forall cf w c rst off pk d,
+  ws_ok w = true -> wfb c = true -> val_follow rst ->
+  exists pk', ignore_value (mkEnv RSlice TEof cf) (mkSt (w ++ render c ++ rst) off pk d)
+            = Ok (mkSt rst (off + length w + length (render c)) pk' d).
+Proof. intros cf w c rst off pk d. apply ignore_value_complete_E. Qed.
+
+Theorem ignore_value_sound : forall cf s0 s1,
+  Forall (fun b => (b < 256)%N) (rest s0) ->
+  ignore_value (mkEnv RSlice TEof cf) s0 = Ok s1 ->
+  exists w c, rest s0 = w ++ render c ++ rest s1 /\ ws_ok w = true /\ wfb c = true
+          /\ off s1 = (off s0 + length w + length (render c))%nat /\ depth s1 = depth s0.
+Proof. intros cf s0 s1 F. apply ignore_value_sound_E. exact F. Qed.
+
+(* top level: from_trait::<IgnoredAny> accepts exactly whitespace* value whitespace* *)
+Theorem ignored_lang : forall cf bs, Forall (fun b => (b < 256)%N) bs ->
+  (ignored_from_input (mkEnv RSlice TEof cf) bs = Ok tt
+   <-> exists w1 c w2, bs = w1 ++ render c ++ w2 /\ ws_ok w1 = true /\ ws_ok w2 = true /\ wfb c = true).
+Proof. intros cf bs F. apply ignored_lang_E. exact F. Qed.
+
+(* RawValue: the captured span is exactly the text of one value *)
+Theorem raw_value_span : forall cf s0 a b s1,
+  Forall (fun x => (x < 256)%N) (rest s0) ->
+  raw_value (mkEnv RSlice TEof cf) s0 = Ok (a, b, s1) ->
+  exists w c, rest s0 = w ++ render c ++ rest s1 /\ ws_ok w = true /\ wfb c = true
+          /\ a = (off s0 + length w)%nat /\ b = (a + length (render c))%nat /\ off s1 = b.
+Proof. intros cf s0 a b s1 F. apply raw_value_span_E. exact F. Qed.
+
+Theorem raw_value_complete : forall cf w c rst off pk d,
+  ws_ok w = true -> wfb c = true -> val_follow rst ->
+  exists s1, raw_value (mkEnv RSlice TEof cf) (mkSt (w ++ render c ++ rst) off pk d)
+             = Ok ((off + length w)%nat, (off + length w + length (render c))%nat, s1) /\ rest s1 = rst.
+Proof. intros cf w c rst off pk d. apply raw_value_complete_E. Qed.
+
+(* the same, read off the input: the bytes input[a..b] of the captured span are the text of one value *)
+Corollary raw_value_bytes : forall cf s0 a b s1,
+  Forall (fun x => (x < 256)%N) (rest s0) ->
+  raw_value (mkEnv RSlice TEof cf) s0 = Ok (a, b, s1) ->
+  exists c, wfb c = true /\ firstn (b - a) (skipn (a - off s0) (rest s0)) = render c.
+Proof.
+  intros cf s0 a b s1 F H.
+  destruct (raw_value_span cf s0 a b s1 F H) as (w & c & Hr & _ & Hc & Ha & Hb & _).
+  exists c. split; [exact Hc|]. rewrite Hr.
+  replace (a - off s0)%nat with (length w) by lia. replace (b - a)%nat with (length (render c)) by lia.
+  rewrite skipn_app_len. apply firstn_app_len.
+Qed.
+
+Print Assumptions ignore_value_sound.
+Print Assumptions ignore_value_complete.
+Print Assumptions ignored_lang.
+Print Assumptions raw_value_span.
+Print Assumptions raw_value_complete.
+Print Assumptions raw_value_bytes.
